@@ -1,19 +1,35 @@
 /- GENERATED: instance obligations for one logic, discharged by kernel evaluation.
-   `X ⊆ known`: every failing row is a committed known finding (Ptx/Gen/Known.lean). -/
+   `S` = the logic with its DOCUMENTED tables (Ptx/Sem/Spec.lean); rules, closure, trunk and frames
+   are what the translator read off the code.  `X ⊆ known`: every failing row is a committed
+   known finding (Ptx/Gen/Known.lean, generated from known_findings.json). -/
 import Ptx.Gen.L_S4LP
 import Ptx.Gen.Known
 import Ptx.Sem.Subset
+import Ptx.Props.C01
+import Ptx.Gen.L_LP
 namespace Ptx.Gen.Obl.S4LP
 open Ptx
 
-theorem tables_total : Gen.S4LP.tablesTotalB = true := by decide +kernel
-theorem rules_exact : subsetB Gen.S4LP.badRules (Known.badRules "S4LP") = true := by decide +kernel
-theorem rules_sound : subsetB Gen.S4LP.unsoundRules (Known.unsoundRules "S4LP") = true := by decide +kernel
-theorem rules_total : subsetB Gen.S4LP.missingRules (Known.missingRules "S4LP") = true := by decide +kernel
-theorem rules_local : Gen.S4LP.nonLocalRules = [] := by decide +kernel
-theorem closure_total : Gen.S4LP.closureTotalB = true := by decide +kernel
-theorem closure_exact : subsetB Gen.S4LP.badClosure (Known.badClosure "S4LP") = true := by decide +kernel
-theorem read_total : Gen.S4LP.readTotalB = true := by decide +kernel
-theorem read_exact : subsetB Gen.S4LP.badRead (Known.badRead "S4LP") = true := by decide +kernel
+/-- a modal / first-order extension has exactly the truth-functional tables of its base (LP) -/
+theorem base_tables : Gen.S4LP.tables.sameTF Gen.LP.tables = true := by decide +kernel
+theorem spec_defined : Gen.S4LP.specDefinedB = true := by decide +kernel
+theorem tables_spec : subsetB Gen.S4LP.tableDiff (Known.tableDiff "S4LP") = true := by decide +kernel
+theorem defined_ops : Gen.S4LP.tables.definedOpsBad = [] := by decide +kernel
+theorem tables_total : Gen.S4LP.sem.tablesTotalB = true := by decide +kernel
+theorem rules_exact : subsetB Gen.S4LP.sem.badRules (Known.badRules "S4LP") = true := by decide +kernel
+theorem rules_sound : subsetB Gen.S4LP.sem.unsoundRules (Known.unsoundRules "S4LP") = true := by decide +kernel
+theorem rules_total : subsetB Gen.S4LP.sem.missingRules (Known.missingRules "S4LP") = true := by decide +kernel
+theorem rules_local : Gen.S4LP.sem.nonLocalRules = [] := by decide +kernel
+theorem closure_total : Gen.S4LP.sem.closureTotalB = true := by decide +kernel
+theorem closure_exact : subsetB Gen.S4LP.sem.badClosure (Known.badClosure "S4LP") = true := by decide +kernel
+theorem read_total : Gen.S4LP.sem.readTotalB = true := by decide +kernel
+theorem read_exact : subsetB Gen.S4LP.sem.badRead (Known.badRead "S4LP") = true := by decide +kernel
+theorem sound_core : Gen.S4LP.sem.soundCoreB = true := by decide +kernel
+
+/-- C01 for this logic: a closed tableau reached by any legal derivation has no countermodel. -/
+theorem c01_valid_sound (arg : Argument) (t : Tableau)
+    (hd : Deriv Gen.S4LP.sem.soundPart.noQuantPart (trunk Gen.S4LP.sem arg) t) (hclosed : t.allClosed = true)
+    (M : Struct) (hM : M.Interp Gen.S4LP.sem) (e : Env M.D) (w0 : M.W) : ¬ Countermodel Gen.S4LP.sem M e w0 arg :=
+  Props.C01.C01_valid_sound_partial Gen.S4LP.sem sound_core arg t hd hclosed M hM e w0
 
 end Ptx.Gen.Obl.S4LP
